@@ -9,6 +9,10 @@ open SecsModel SecsModel.Spec.E30Comm SecsModel.Model.SecsHandle
 theorem dispatches_eq (c : Comm) : dispatches c = decide (c = .communicating) := by
   cases c <;> rfl
 
+/-- the generated guard: only an even function (a reply) is looked up among the open transactions -/
+theorem toWaiter_eq (env : Env) (m : Msg) : toWaiter env m = (m.f % 2 == 0 && env.waiting.contains m.sys) := by
+  simp [toWaiter, show Gen.Callbacks.waiterRepliesOnly = true from rfl]
+
 theorem unknownReply_eq : Gen.Callbacks.unknownReply = (9, 5) := rfl
 theorem abortFunction_eq : Gen.Callbacks.abortFunction = 0 := rfl
 
